@@ -989,11 +989,11 @@ def r10_index_scenarios(rep, src):
                 rep.ok(rule, f.site, what, 'up to date' if up_to_date else 'patches %s' % ' '.join(applied) if good_chain else 'full download')
             else:
                 got = 'raises %s' % out[1] if out[0] == 'raise' else 'returns %r' % (out[1],)
-                rep.fail(rule, f.site, what, '%s after %s%s; expected %s' % (
-                    got, ', '.join('%s %s' % (e[0], e[1]) if len(e) > 1 else e[0] for e in log[1:]) or 'nothing',
+                rep.fail(rule, f.site, what, '%s: %s after %s%s; expected %s' % (
+                    what, got, ', '.join('%s %s' % (e[0], e[1]) if len(e) > 1 else e[0] for e in log[1:]) or 'reading the index',
                     ' (the content written is %s, not the current one)' % repl[0][1] if repl and repl[0][1] != 'hC' else '',
                     'the patches from an entry of the local content to the end of the history, then the file replaced by the current content' if must_patch
-                    else 'that, or the full download (the index is unusable)'), where=f.where)
+                    else 'the patches of a consecutive chain, or the full download (the index is unusable)'), where=f.where)
         for local in ('h0', 'h1', 'h3', 'hC', 'hX'):
             judge('C19.R7', '[%s] history h0 h1 h0 h3 -> current, local copy at %s' % (prefix, local), index(), local, local in ('h0', 'h1', 'h3'))
         # a version in the middle of the history that is not valid UTF-8 (the current content is): the patches to and from it cannot be
